@@ -104,7 +104,13 @@ def _run(case, ctx, scaling_given, scaling_model):
     from menelaus.data_drift import PCACD
 
     cfg = dict(case["cfg"], online_scaling=scaling_model)
-    det = ctx.call("C11:ctor", PCACD, **dict(cfg, online_scaling=scaling_given))
+    if case.get("run_seed", 1) % 4 == 0:
+        # the documented positional order of the constructor's parameters
+        order = ["window_size", "ev_threshold", "delta", "divergence_metric", "sample_period", "online_scaling"]
+        det = ctx.call("C11:ctor", PCACD, *[dict(cfg, online_scaling=scaling_given)[k] for k in order])
+        ctx.probe("constructed_positionally")
+    else:
+        det = ctx.call("C11:ctor", PCACD, **dict(cfg, online_scaling=scaling_given))
     m = Model(**cfg)
     drifts = rebuilt = 0
     for t, row in enumerate(case["events"]):
